@@ -12,6 +12,7 @@ import (
 	"context"
 	_ "crypto/sha256"
 	_ "crypto/sha512"
+	"encoding/json"
 	"errors"
 	"fmt"
 	"io"
@@ -55,7 +56,7 @@ func main() {
 	}
 	r := evidence.New("C07", "exploration")
 	r.Rule("case = (seeded DAG ≤ N nodes without media-type twins, store kind ∈ {memory, oci, file}, push-order class ∈ {children-first, parents-first, random, concurrent, partial}, " +
-		"post-history of Delete/GC/re-push/reopen(dir|fs.FS|tar|system tar) on oci); after every step Predecessors(n) for every DAG node n is compared as a set (and for duplicates) with the generator's inverse edges restricted to stored nodes; " +
+		"post-history of Delete/GC/GC meeting a corrupt blob/re-push/re-push of a manifest whose index.json update fails/reopen(dir|fs.FS|tar|system tar)/reopen after index.json was cut down to tags and top-level manifests (as other image tools write it) on oci); after every step Predecessors(n) for every DAG node n and for every foreign (never stored) layer is compared as a set (and for duplicates) with the generator's inverse edges restricted to stored nodes; " +
 		"distinct = hash(DAG shape, kind, order class, history ops); non-trivial = some node has ≥2 stored predecessors and some parent was pushed before one of its children")
 	r.Assume("one media type per digest in this check (media-type twins belong to C01)")
 	worker.Run(r, worker.Opts{Phase: "hist", Total: r.N(3000, 30000), Batch: 100})
@@ -232,6 +233,33 @@ func runCase(phase string, i int) (res worker.Result) {
 			}
 			res.Count("predecessor_queries", 1)
 		}
+		// foreign layers are referenced by a manifest's layers like any other
+		// blob; they are never stored ("whether or not n itself is present")
+		for _, nd := range g.Nodes {
+			if skip[nd.ID] {
+				continue
+			}
+			for _, fd := range nd.Foreign {
+				got, err := st.Predecessors(ctx, fd)
+				if err != nil {
+					res.Violate("predecessors-error", fmt.Sprintf("%s: Predecessors(foreign layer of node %d) error: %v", where, nd.ID, err), witness(g, kind, orderClass, history))
+					return false
+				}
+				want := map[string]bool{}
+				if stored[nd.ID] {
+					want[gen.Key(nd.Desc)] = true
+				}
+				gotSet := map[string]bool{}
+				for _, d := range got {
+					gotSet[gen.Key(d)] = true
+				}
+				if !sameSet(want, gotSet) || len(got) != len(gotSet) {
+					res.Violate("predecessors-mismatch:foreign-layer", fmt.Sprintf("%s (%s): Predecessors(foreign layer %s of node %d) = %v, want %v", where, kind, fd.Digest.Encoded()[:12], nd.ID, keys(gotSet), keys(want)), witness(g, kind, orderClass, history))
+					return false
+				}
+				res.Count("predecessor_queries_for_foreign_layers", 1)
+			}
+		}
 		return true
 	}
 
@@ -398,8 +426,30 @@ func runCase(phase string, i int) (res worker.Result) {
 			}
 		}
 		steps := 2 + rng.IntN(8)
+		foreignLayout, noMoreReopen := false, false
 		for s := 0; s < steps; s++ {
-			switch op := rng.IntN(10); {
+			switch op := rng.IntN(11); {
+			case op == 10: // the layout as other tools write it: index.json lists the tags and the top-level manifests only
+				if noMoreReopen {
+					continue
+				}
+				kept, dropped, err := rootsOnlyIndex(dir, g, nodes, stored)
+				if err != nil {
+					res.Violate("harness:roots-only-index", err.Error(), witness(g, kind, orderClass, history))
+					return res
+				}
+				rw, err := oci.New(dir)
+				if err != nil {
+					res.Violate("reopen-failed", fmt.Sprintf("reopen(rw, index.json listing roots only): %v", err), witness(g, kind, orderClass, history))
+					return res
+				}
+				rw.AutoGC = ociStore.AutoGC
+				ociStore, st = rw, rw
+				foreignLayout = foreignLayout || dropped > 0
+				history = append(history, step{Op: fmt.Sprintf("reopen-rw-roots-only-index(kept %d, dropped %d entries)", kept, dropped)})
+				histKinds += "f"
+				res.Count("reopens_with_roots_only_index", 1)
+				res.Count("nested_manifests_not_listed_in_index", int64(dropped))
 			case op < 4: // delete a stored node
 				var cands []int
 				for _, id := range nodes {
@@ -418,6 +468,11 @@ func runCase(phase string, i int) (res worker.Result) {
 				}
 				history = append(history, step{Op: "delete", Node: id})
 				histKinds += "d"
+				if foreignLayout {
+					// a manifest that index.json does not list and that lost its parent
+					// cannot be found again by a later load: nothing on disk says it is a manifest
+					noMoreReopen = true
+				}
 				// what is stored now is observed (the cascade is C09's subject)
 				after := existing(st, g, nodes)
 				for n := range before {
@@ -481,6 +536,35 @@ func runCase(phase string, i int) (res worker.Result) {
 					continue
 				}
 				id := cands[rng.IntN(len(cands))]
+				if g.Nodes[id].Kind.IsManifestKind() && rng.IntN(3) == 0 {
+					// the push of a manifest whose index.json update fails: whatever Push
+					// answers, Predecessors must agree with what is stored afterwards
+					idxPath := filepath.Join(dir, "index.json")
+					aside := idxPath + ".aside"
+					if os.Rename(idxPath, aside) == nil {
+						os.MkdirAll(filepath.Join(idxPath, "x"), 0o755)
+						perr := st.Push(ctx, g.Nodes[id].Desc, bytes.NewReader(g.Nodes[id].Bytes))
+						os.RemoveAll(idxPath)
+						os.Rename(aside, idxPath)
+						if perr != nil {
+							res.Count("manifest_pushes_with_failing_index_save", 1)
+						}
+						// bring index.json up to date again for later reopen steps
+						if serr := ociStore.SaveIndex(); serr != nil {
+							res.Violate("harness:save-index", serr.Error(), witness(g, kind, orderClass, history))
+							return res
+						}
+						if ok, eerr := st.Exists(ctx, g.Nodes[id].Desc); eerr == nil && ok {
+							markPushed(id)
+							if perr != nil {
+								res.Count("failed_manifest_pushes_left_stored", 1)
+							}
+						}
+						history = append(history, step{Op: fmt.Sprintf("repush-with-failing-index-save(err=%v)", perr != nil), Node: id})
+						histKinds += "x"
+						break
+					}
+				}
 				if err := push(id); err != nil {
 					res.Violate("push-failed", fmt.Sprintf("re-push node %d: %v", id, err), witness(g, kind, orderClass, history))
 					return res
@@ -489,6 +573,9 @@ func runCase(phase string, i int) (res worker.Result) {
 				history = append(history, step{Op: "repush", Node: id})
 				histKinds += "p"
 			default: // reopen
+				if noMoreReopen {
+					continue
+				}
 				mode := rng.IntN(4)
 				ro, how, err := reopen(dir, mode)
 				if err != nil {
@@ -543,6 +630,50 @@ func runCase(phase string, i int) (res worker.Result) {
 		res.Sample = witness(g, kind, orderClass, history)
 	}
 	return res
+}
+
+// rootsOnlyIndex rewrites index.json the way image tools other than oras write
+// it: the named entries stay, of the entries without a name only those of
+// stored manifests that no stored manifest references stay.
+func rootsOnlyIndex(dir string, g *gen.DAG, nodes []int, stored map[int]bool) (kept, dropped int, err error) {
+	p := filepath.Join(dir, "index.json")
+	b, err := os.ReadFile(p)
+	if err != nil {
+		return 0, 0, err
+	}
+	var idx ocispec.Index
+	if err := json.Unmarshal(b, &idx); err != nil {
+		return 0, 0, err
+	}
+	nested := map[string]bool{}
+	for _, id := range nodes {
+		if !stored[id] {
+			continue
+		}
+		for _, q := range g.Preds(id) {
+			if stored[q] {
+				nested[g.Nodes[id].Desc.Digest.String()] = true
+			}
+		}
+	}
+	out := idx.Manifests[:0:0]
+	for _, d := range idx.Manifests {
+		if d.Annotations[ocispec.AnnotationRefName] == "" && nested[d.Digest.String()] {
+			dropped++
+			continue
+		}
+		out = append(out, d)
+		kept++
+	}
+	if out == nil {
+		out = []ocispec.Descriptor{}
+	}
+	idx.Manifests = out
+	nb, err := json.Marshal(idx)
+	if err != nil {
+		return 0, 0, err
+	}
+	return kept, dropped, os.WriteFile(p, nb, 0o644)
 }
 
 var errNotStored = errors.New("cancelled push left nothing stored")
